@@ -19,6 +19,8 @@
 #include <hgraph/lib/std/operators/impl/record_replay_memory_impl.h>
 #include <hgraph/lib/testing/record_replay.h>
 
+#include <atomic>
+#include <mutex>
 #include <thread>
 
 namespace hv
@@ -239,6 +241,7 @@ namespace hv
             if (s.op == "add3") { put(s.dst, wire<VAdd3>(w, pi(a.at(0)), pi(a.at(1)), pi(a.at(2)), uid)); return; }
             if (s.op == "sum2") { put(s.dst, wire<VSum2>(w, pi(a.at(0)), pi(a.at(1)))); return; }
             if (s.op == "max2") { put(s.dst, wire<VMax2>(w, pi(a.at(0)), pi(a.at(1)))); return; }
+            if (s.op == "gs") { put(s.dst, wire<VGs>(w, pi(a.at(0)), uid)); return; }
             if (s.op == "acc") { put(s.dst, wire<VAcc>(w, pi(a.at(0)), uid)); return; }
             if (s.op == "count") { put(s.dst, wire<VCount>(w, pi(a.at(0)), uid)); return; }
             if (s.op == "sample") { put(s.dst, wire<VSample>(w, pi(a.at(0)), pi(a.at(1)), uid)); return; }
@@ -393,6 +396,9 @@ namespace hv
         Line("ENDCASE").s(name).s("done");
     }
 
+    inline bool       g_serialise_wiring = false;
+    inline std::mutex g_wiring_mutex;
+
     inline void run_case(Ctx &c, const std::string &name)
     {
         tl_ctx = &c;
@@ -404,6 +410,8 @@ namespace hv
         std::optional<GraphBuilder> gb;
         try
         {
+            std::unique_lock<std::mutex> wiring_lock(g_wiring_mutex, std::defer_lock);
+            if (g_serialise_wiring) wiring_lock.lock();
             gb.emplace(build_graph<MainG>(Str{"main"}));
         }
         catch (const std::exception &e)
@@ -556,10 +564,30 @@ int main(int argc, char **argv)
     }
     else
     {
-        // C07: wiring is sequential (the code base does not claim concurrent wiring); executors run
-        // concurrently. Here each thread wires+runs its own cases under a wiring mutex for the build.
-        std::fprintf(stderr, "threaded mode lives in hgdrive_mt\n");
-        return 64;
+        // C07: wiring is sequential (the code base does not claim concurrent wiring: wiring scopes live in a singleton),
+        // so graph construction is serialised by g_wiring_mutex inside run_case; executors run concurrently.
+        g_serialise_wiring = true;
+        std::atomic<std::size_t> next{0};
+        std::mutex               out_mutex;
+        std::vector<std::thread> pool;
+        for (int t = 0; t < threads; ++t)
+        {
+            pool.emplace_back([&] {
+                for (;;)
+                {
+                    const std::size_t k = next.fetch_add(1);
+                    if (k >= cases.size()) break;
+                    auto &[name, c] = cases[k];
+                    run_case(c, name);
+                    std::lock_guard<std::mutex> lock(out_mutex);
+                    std::fwrite(c.out.data(), 1, c.out.size(), out);
+                    c.out.clear();
+                    c.out.shrink_to_fit();
+                    std::fflush(out);
+                }
+            });
+        }
+        for (auto &th : pool) th.join();
     }
     std::fclose(out);
     return 0;
